@@ -64,7 +64,7 @@ func c07URLs(assets []app.VerifAsset, r *Rng, per int) []string {
 		T := ref.MediaTimescale
 		mpd := a.MPDs[0]
 		now := int64(a.LoopDurMS)*3 + 1700
-		for _, cf := range []string{"", "segtimeline_1/", "segtimelinenr_1/", "periods_60/", "timesubsstpp_en,sv/", "timesubswvtt_en/", "patch_60/segtimeline_1/", "eccp_cenc/", "ato_1/chunkdur_0.5/", "scte35_2/", "start_7/snr_3/"} {
+		for _, cf := range []string{"", "segtimeline_1/", "segtimelinenr_1/", "periods_60/", "timesubsstpp_en,sv/", "timesubswvtt_en/", "patch_60/segtimeline_1/", "eccp_cenc/", "ato_1/chunkdur_0.5/", "scte35_2/", "start_7/snr_3/", "utc_head/", "utc_direct-ntp/", "startrel_-20/"} {
 			urls = append(urls, fmt.Sprintf("/livesim2/%s%s/%s?nowMS=%d", cf, a.AssetPath, mpd, now))
 		}
 		urls = append(urls, fmt.Sprintf("/patch/livesim2/patch_60/segtimeline_1/%s/%s?publishTime=%s&nowMS=%d", a.AssetPath, strings.Replace(mpd, ".mpd", ".mpp", 1),
@@ -127,6 +127,14 @@ func c07Noise(s *app.Server, r *Rng, assets []app.VerifAsset) {
 		}
 		apiCall(s, "GET", "/api/cmaf-ingests/"+id, nil)
 		apiCall(s, "DELETE", "/api/cmaf-ingests/"+id, nil)
+	}
+	// requests that name the server differently (Host header): what a later request gets must not depend on them
+	for _, hst := range []string{"noise.example:8888", "127.0.0.1:9999", "[::1]:8888"} {
+		for _, u := range []string{"/livesim2/testpic_2s/Manifest.mpd?nowMS=90000", "/livesim2/utc_head/testpic_2s/Manifest.mpd?nowMS=90000", "/livesim2/eccp_cenc/testpic_2s/Manifest.mpd?nowMS=90000"} {
+			req := httptest.NewRequest("GET", u, nil)
+			req.Host = hst
+			serveGuarded(s.LiveRouter, req)
+		}
 	}
 	for _, u := range []string{"/livesim2/annexI_a/testpic_2s/Manifest.mpd?nowMS=1000", "/livesim2/eccp_foo/testpic_2s/V300/init.mp4?nowMS=1000", "/livesim2/periods_7/testpic_2s/Manifest.mpd?nowMS=100000",
 		"/livesim2/statuscode_[{cycle:30,rsq:0,code:404}]/testpic_2s/V300/15.m4s?nowMS=40000", "/livesim2/traffic_u2d2/testpic_2s/bu0/V300/15.m4s?nowMS=40000"} {
